@@ -357,7 +357,12 @@ def r3(R, repo):
   else:
     cut = [(t[0], m, l) for m, l in c.succ[t[0]] if l != 'T'] if t else []
     ok = len(t) == 1 and c.edge_guarded(chk[0], t[0], 'T') and c.must_pass(c.entry, spl[0], chk, avoid_edges=cut)
-    R.judge(len(t) == 1, ok, key_of(tt, 'consistent-aliasing check before split'), tt, 'on the prefix path every graph-node leaf must pass check_consistent_aliasing before split_fn unless check_aliasing is false')
+    wit = evid.bypass_under(c, {'check_aliasing': True}, spl[0], chk)
+    if wit is not None:
+      R.fail(key_of(tt, 'consistent-aliasing check before split'), (tt, spl[0].stmt), 'with check_aliasing=True a graph-node leaf can reach split_fn without check_consistent_aliasing (path: %s): '
+             'aliases under a prefix the extra condition excludes (e.g. None = broadcast / not differentiated) are silently resolved, first argument wins' % wit)
+    else:
+      R.judge(len(t) == 1, ok, key_of(tt, 'consistent-aliasing check before split'), tt, 'on the prefix path every graph-node leaf must pass check_consistent_aliasing before split_fn unless check_aliasing is false')
   R.check(astu.is_const(astu.param_default(tt.node, 'check_aliasing'), True), key_of(tt, 'check_aliasing defaults to True'), tt, 'check_aliasing must default to True', evidence='check_aliasing' in astu.params(tt.node))
   withs = [n for n in c.nodes if n.kind == 'with' and 'graph.split_context(ctxtag)' in astu.src(n.ast)]
   loops = [n for n in c.nodes if n.kind == 'for']
@@ -582,6 +587,12 @@ def r8(R, repo):
   R.judge(len(reg) == 1, len(reg) == 1 and c.dominated(init[0], reg), key_of(f, 'registered before children are built'), f, 'index_ref[nodedef.index] = node must precede init(node, children) so that cycles resolve to the node itself')
 
 
+@rule('C04.R9', 'K12', 1, 'indices of the caller\'s objects (0 = the first argument) are never tested for truth (shared with C03.R9)')
+def r9(R, repo):
+  from . import c03 as _c03
+  _c03.check_index_truthiness(R, repo)
+
+
 meta('C04',
      explanation='Protocol rules over every extract.to_tree/from_tree call and graph.update_context use in flax/nnx/transforms/*.py (tag agreement, is_inner roles, dominance / '
      'post-dominance of split and merge, outer wrapper under update_context, result returned, inner<->outer tag table incl. constructor-linked tags), representation pairing of '
@@ -598,5 +609,7 @@ meta('C04',
          Mutant('C04-m7', TDIR + 'transforms.py', "    general.merge_inputs(false_fun, ctxtag='cond'),", "    general.merge_inputs(false_fun, ctxtag='switch'),", 'C04.R1'),
          Mutant('C04-m8', TDIR + 'compilation.py', "    JitFn(fun, in_shardings, out_shardings, kwarg_shardings, jit_wrapper),", "    JitFn(fun, in_shardings, out_shardings, kwarg_shardings, fun),", 'C04.R1'),
          Mutant('C04-m9', GR, "          if static_cache_node.final_graphdef != graphdef:", "          if False and static_cache_node.final_graphdef != graphdef:", 'C04.R5'),
+         Mutant('C04-m10', GR, "      outer_index_outer_ref is not None\n", "      outer_index_outer_ref\n      and nodedef.outer_index\n", 'C04.R9', why='seed C04-C (round 2)'),
+         Mutant('C04-m11', EX, "        if check_aliasing:\n", "        if check_aliasing and leaf_prefix is not None:\n", 'C04.R3', why='seed C08-D (round 2)'),
          Mutant('C04-b1', TDIR + 'general.py', "    pure_args = extract.to_tree(args, ctxtag=ctxtag)\n    pure_args_out, pure_out = f(*pure_args)", "    pure = extract.to_tree(args, ctxtag=ctxtag)\n    pure_args_out, pure_out = f(*pure)", kind='benign'),
      ])
